@@ -23,6 +23,8 @@ def groupOf (tok : String) : Option (List DtOp) :=
   | some o => some [.api o]
   | none =>
     if tok == "g" then some [.setRcrit] else
+    if tok == "ms0" then some [.setSafe false] else if tok == "ms1" then some [.setSafe true] else
+    if tok == "mk0" then some [.setKeep false] else if tok == "mk1" then some [.setKeep true] else
     match tok.splitOn ":" with
     | ["c", pre, post] =>
       some ((cbStepPlan (if b01 pre then some () else none) (if b01 post then some () else none)).map DtOp.api)
@@ -32,58 +34,84 @@ def groupOf (tok : String) : Option (List DtOp) :=
       | _, _ => none
     | _ => none
 
+/-- a flag machine as the driver sees it: state `F` (options that can change mid-run + flags) -/
+structure Machine (F : Type) where
+  api : F → Op Unit → Except String (List String × F)
+  apiForce : F → Op Unit → Except String (List String × F)   -- synchronize ignoring keep_unsynchronized
+  setR : F → F                                                -- user sets recalculate_r_crit_this_timestep
+  setSafe : Bool → F → F
+  setKeep : Bool → F → F
+  shw : F → String
+
 /-- run one group through a flag machine: prims (as strings) with the dt markers in between -/
-def runGroup {F : Type} (api apiForce : F → Op Unit → Except String (List String × F)) (setR : F → F) :
-    F → List DtOp → List String → Except String (List String × F)
+def runGroup {F : Type} (M : Machine F) : F → List DtOp → List String → Except String (List String × F)
   | f, [], acc => .ok (acc.reverse, f)
-  | f, .setRcrit :: r, acc => runGroup api apiForce setR (setR f) r acc
+  | f, .setRcrit :: r, acc => runGroup M (M.setR f) r acc
+  | f, .setSafe b :: r, acc => runGroup M (M.setSafe b f) r acc
+  | f, .setKeep b :: r, acc => runGroup M (M.setKeep b f) r acc
   | f, .forceSync :: r, acc =>
-    match apiForce f .synchronize with
+    match M.apiForce f .synchronize with
     | .error e => .error e
-    | .ok (ps, f') => runGroup api apiForce setR f' r (ps.reverse ++ acc)
+    | .ok (ps, f') => runGroup M f' r (ps.reverse ++ acc)
   | f, .api o :: r, acc =>
-    match api f o with
+    match M.api f o with
     | .error e => .error e
     | .ok (ps, f') =>
       let tail := match o with | .step => ["stepEnd"] | .poke _ => ["cbEdit"] | _ => []
-      runGroup api apiForce setR f' r ((ps ++ tail).reverse ++ acc)
-  | f, .begin :: r, acc => runGroup api apiForce setR f r ("intBegin" :: acc)
-  | f, .flipDt :: r, acc => runGroup api apiForce setR f r ("flipDt" :: acc)
-  | f, .setDtLast :: r, acc => runGroup api apiForce setR f r ("setDtLast" :: acc)
-  | f, .restoreDt :: r, acc => runGroup api apiForce setR f r ("restoreDt" :: acc)
+      runGroup M f' r ((ps ++ tail).reverse ++ acc)
+  | f, .begin :: r, acc => runGroup M f r ("intBegin" :: acc)
+  | f, .flipDt :: r, acc => runGroup M f r ("flipDt" :: acc)
+  | f, .setDtLast :: r, acc => runGroup M f r ("setDtLast" :: acc)
+  | f, .restoreDt :: r, acc => runGroup M f r ("restoreDt" :: acc)
 
-def runGroups {F : Type} (api apiForce : F → Op Unit → Except String (List String × F)) (setR : F → F) (fs : F → String) :
-    F → List (List DtOp) → List String → String
+def runGroups {F : Type} (M : Machine F) : F → List (List DtOp) → List String → String
   | _, [], acc => ";".intercalate acc.reverse
   | f, g :: gs, acc =>
-    match runGroup api apiForce setR f g [] with
+    match runGroup M f g [] with
     | .error e => ";".intercalate (("error " ++ e) :: acc).reverse
-    | .ok (ps, f') => runGroups api apiForce setR fs f' gs ((",".intercalate ps ++ "@" ++ fs f') :: acc)
+    | .ok (ps, f') => runGroups M f' gs ((",".intercalate ps ++ "@" ++ M.shw f') :: acc)
 
-def whApi (c : Config) (f : Flags) (o : Op Unit) : Except String (List String × Flags) :=
-  match apiOps c f o with
+def liftApi {C Fl P : Type} (f : C → Fl → Op Unit → Except String (List P × Fl)) (str : P → String) :
+    C × Fl → Op Unit → Except String (List String × (C × Fl)) := fun x o =>
+  match f x.1 x.2 o with
   | .error e => .error e
-  | .ok (ps, f') => .ok (ps.map Prim.toString, f')
+  | .ok (ps, f') => .ok (ps.map str, (x.1, f'))
 
-def varApi (c : Config) (f : Flags) (o : Op Unit) : Except String (List String × Flags) :=
-  let (ps, f') := vOpOps c f o
-  .ok (ps.map Prim.toString, f')
-
-def mercApiCoarse (safe : Bool) (f : MFlags) (o : Op Unit) : Except String (List String × MFlags) :=
-  let (ps, f') := mOpOpsCoarse safe f o
-  .ok (ps.map MPrim.toString, f')
-
-def sabaApi (c : SabaConfig) (f : Flags) (o : Op Unit) : Except String (List String × Flags) :=
-  match sabaApiOps c f o with
-  | .error e => .error e
-  | .ok (ps, f') => .ok (ps.map Prim.toString, f')
-
+def flagsStr2 (x : Config × Flags) : String := flagsStr x.2
 def mflagsStr (f : MFlags) : String :=
   s!"{bs f.isSync} {bs f.recalc} {bs f.recalcR} {bs f.allocD} {bs f.allocT}"
 
-def mercApi (safe : Bool) (f : MFlags) (o : Op Unit) : Except String (List String × MFlags) :=
-  let (ps, f') := mOpOps safe f o
-  .ok (ps.map MPrim.toString, f')
+def whMachine : Machine (Config × Flags) where
+  api := liftApi (fun c f o => apiOps c f o) Prim.toString
+  apiForce := fun x o => liftApi (fun c f o => apiOps { c with keep := false } f o) Prim.toString x o
+  setR := id
+  setSafe := fun b x => ({ x.1 with safe := b }, x.2)
+  setKeep := fun b x => ({ x.1 with keep := b }, x.2)
+  shw := fun x => flagsStr x.2
+
+def varMachine : Machine (Config × Flags) where
+  api := liftApi (fun c f o => (Except.ok (vOpOps c f o) : Except String _)) Prim.toString
+  apiForce := liftApi (fun c f o => (Except.ok (vOpOps { c with keep := false } f o) : Except String _)) Prim.toString
+  setR := id
+  setSafe := fun b x => ({ x.1 with safe := b }, x.2)
+  setKeep := fun b x => ({ x.1 with keep := b }, x.2)
+  shw := fun x => flagsStr x.2
+
+def sabaMachine : Machine (SabaConfig × Flags) where
+  api := liftApi (fun c f o => sabaApiOps c f o) Prim.toString
+  apiForce := liftApi (fun c f o => sabaApiOps { c with keep := false } f o) Prim.toString
+  setR := id
+  setSafe := fun b x => ({ x.1 with safe := b }, x.2)
+  setKeep := fun b x => ({ x.1 with keep := b }, x.2)
+  shw := fun x => flagsStr x.2
+
+def mercMachine (coarse : Bool) : Machine (Bool × MFlags) where
+  api := liftApi (fun sf f o => (Except.ok (if coarse then mOpOpsCoarse sf f o else mOpOps sf f o) : Except String _)) MPrim.toString
+  apiForce := liftApi (fun sf f o => (Except.ok (if coarse then mOpOpsCoarse sf f o else mOpOps sf f o) : Except String _)) MPrim.toString
+  setR := fun x => (x.1, mSetRcrit x.2)
+  setSafe := fun b x => (b, x.2)
+  setKeep := fun _ x => x
+  shw := fun x => mflagsStr x.2
 
 /-- the footprint table of the model (`transfer`) as a dependency matrix: row = output
     component, column = input component, `1` = may depend.  rv/c09.py tests it on the real
@@ -113,14 +141,15 @@ def eopStr : Eos.EOp Float → String
   | .inter0 y v => "I0:" ++ hx y ++ ":" ++ hx v
 
 /-- EOS: `E phi0 phi1 n safe isSync dt(hex) op*` with ops `s` / `y` / `r` -/
-def runEos (phi0 phi1 n : Nat) (safe : Bool) (dt : Float) : Bool → List String → List String → String
-  | _, [], acc => ";".intercalate acc.reverse
-  | b, o :: os, acc =>
+def runEos (phi0 phi1 n : Nat) (dt : Float) : Bool → Bool → List String → List String → String
+  | _, _, [], acc => ";".intercalate acc.reverse
+  | safe, b, o :: os, acc =>
+    let safe' := if o == "ms0" then false else if o == "ms1" then true else safe
     let (ps, b') := match o with
       | "s" => Eos.part2 Gen.C09.eosTab phi0 phi1 n safe b dt
       | "y" => Eos.sync Gen.C09.eosTab phi0 phi1 n b dt
       | _ => ([], b)
-    runEos phi0 phi1 n safe dt b' os ((",".intercalate (ps.map eopStr) ++ "@" ++ bs b') :: acc)
+    runEos phi0 phi1 n dt safe' b' os ((",".intercalate (ps.map eopStr) ++ "@" ++ bs b') :: acc)
 
 /-- `W coord kernel corrector corrector2 safe keep c2fixed isSync recalc allocated op*` -/
 def step (toks : List String) : String :=
@@ -128,29 +157,28 @@ def step (toks : List String) : String :=
   | "W" :: co :: ke :: cr :: c2 :: sa :: kp :: fx :: isy :: rc :: al :: ops =>
     match coordOf co, ke.toNat?, cr.toNat?, ops.mapM groupOf with
     | some co, some ke, some cr, some ops =>
-      runGroups (whApi ⟨co, ke, cr, b01 c2, b01 sa, b01 kp, b01 fx⟩) (whApi ⟨co, ke, cr, b01 c2, b01 sa, false, b01 fx⟩) id flagsStr ⟨b01 isy, b01 rc, b01 al⟩ ops []
+      runGroups whMachine (⟨co, ke, cr, b01 c2, b01 sa, b01 kp, b01 fx⟩, ⟨b01 isy, b01 rc, b01 al⟩) ops []
     | _, _, _, _ => "bad-op"
   | "S" :: ty :: sa :: kp :: ci :: isy :: rc :: al :: ops =>
     match ty.toNat?, ops.mapM groupOf with
-    | some ty, some ops => runGroups (sabaApi ⟨ty, b01 sa, b01 kp, b01 ci⟩) (sabaApi ⟨ty, b01 sa, false, b01 ci⟩) id flagsStr ⟨b01 isy, b01 rc, b01 al⟩ ops []
+    | some ty, some ops => runGroups sabaMachine (⟨ty, b01 sa, b01 kp, b01 ci⟩, ⟨b01 isy, b01 rc, b01 al⟩) ops []
     | _, _ => "bad-op"
   | ["FOOT"] => footStr
   | "E" :: p0 :: p1 :: n :: sa :: isy :: dt :: ops =>
     match p0.toNat?, p1.toNat?, n.toNat? with
-    | some p0, some p1, some n => runEos p0 p1 n (b01 sa) (fl dt) (b01 isy) ops []
+    | some p0, some p1, some n => runEos p0 p1 n (fl dt) (b01 sa) (b01 isy) ops []
     | _, _, _ => "bad-op"
   | "V" :: sa :: kp :: isy :: rc :: al :: ops =>
     match ops.mapM groupOf with
-    | some ops => runGroups (varApi ⟨.jacobi, 0, 0, false, b01 sa, b01 kp, false⟩)
-        (varApi ⟨.jacobi, 0, 0, false, b01 sa, false, false⟩) id flagsStr ⟨b01 isy, b01 rc, b01 al⟩ ops []
+    | some ops => runGroups varMachine (⟨.jacobi, 0, 0, false, b01 sa, b01 kp, false⟩, ⟨b01 isy, b01 rc, b01 al⟩) ops []
     | none => "bad-op"
   | "MC" :: sa :: isy :: rc :: rr :: ad :: atm :: ops =>
     match ops.mapM groupOf with
-    | some ops => runGroups (mercApiCoarse (b01 sa)) (mercApiCoarse (b01 sa)) mSetRcrit mflagsStr ⟨b01 isy, b01 rc, b01 rr, b01 ad, b01 atm⟩ ops []
+    | some ops => runGroups (mercMachine true) (b01 sa, ⟨b01 isy, b01 rc, b01 rr, b01 ad, b01 atm⟩) ops []
     | none => "bad-op"
   | "M" :: sa :: isy :: rc :: rr :: ad :: atm :: ops =>
     match ops.mapM groupOf with
-    | some ops => runGroups (mercApi (b01 sa)) (mercApi (b01 sa)) mSetRcrit mflagsStr ⟨b01 isy, b01 rc, b01 rr, b01 ad, b01 atm⟩ ops []
+    | some ops => runGroups (mercMachine false) (b01 sa, ⟨b01 isy, b01 rc, b01 rr, b01 ad, b01 atm⟩) ops []
     | none => "bad-op"
   | _ => "bad-op"
 
